@@ -7,6 +7,9 @@ VERIF = os.path.dirname(os.path.dirname(os.path.abspath(__file__)))
 
 # id -> (technique, level text, level note, design ref)   -- only checks that exist under mc/checks are claimed
 CHECKS = {
+    "C12": ("bounded exhaustive enumeration of filter sets x routes x stores against a naive reference evaluator",
+            "All filter sets of size <=2 (thorough <=3) over ~50 filters (every operator on type/id incl. contradictory and repeated ones, scalar, list, timestamp in several spellings and as datetime, dotted paths, absent property) are executed on MemorySource and FileSystemSource through every route (query argument, attached, composite, nested composite, every mixed assignment for pairs) and compared with a naive evaluation over all stored objects; conjunction=intersection, route-independence, store agreement and attached-filter coverage of get/all_versions are asserted on the library's own answers.",
+            "trusted: reference evaluator in mc/checks/c12_filters.py; population fixed (10 stored versions); only type-consistent filters", "DESIGN.md §3 C12"),
     "C11": ("exhaustive exploration of add-histories (operation sequences up to a depth) on both real stores against a list model",
             "Every history of length <=3 (thorough: + length 4 over 13 core events) over a menu of 23 add events (versions of one id in every order, object/dict/list/bundle/JSON-text forms, duplicate and conflicting versions, timestamp spellings, sub-millisecond neighbours, unversioned SCO, marking-definition, 2.0 object, registered custom, unregistered dicts, non-v4 UUID ids, bundlify) is executed on MemoryStore and FileSystemStore side by side with a list model in lock-step; get/all_versions/query for every id and type after every history; save_to_file/load_from_file from every state of length <=2. No state merging: every order is executed.",
             "trusted: list model + parse() as the definition of 'what went in' (C03 covers the parser); result order never compared; refusals are loud and pin the model (DESIGN §3 C11)", "DESIGN.md §3 C11"),
